@@ -701,3 +701,54 @@ func init() {
 		r.Floor("catalog scan loops at reload", n, 2)
 	})
 }
+
+// loopHeaders lists the headers of the natural loops of fn (targets of back edges).
+func loopHeaders(fn *ssa.Function) []*ssa.BasicBlock {
+	var out []*ssa.BasicBlock
+	for _, b := range fn.Blocks {
+		for _, p := range b.Preds {
+			if b.Dominates(p) {
+				out = append(out, b)
+				break
+			}
+		}
+	}
+	return out
+}
+
+func init() {
+	reg("C03-R7", "loops that must deal with every element have no early exit: the write-set loops of TransactionManager.Commit and Abort, the loser loop of LogRecovery.Undo, the row loop of LockManager.Unlock, the column loop of Catalog.insertTable and the table / index / row loops of the index reconstruction are left only through their own loop condition (a `break` or `return` inside would leave part of a transaction not rolled back, not released, not persisted or not indexed); exits into a panic do not count", func(w *World, r *Report) {
+		a := w.A()
+		type ent struct {
+			fn   *ssa.Function
+			name string
+			// allowed extra exits (by reason) — none on the reference tree
+		}
+		ents := []ent{
+			{w.SSA(a.TMCommit), "TransactionManager.Commit"},
+			{w.SSA(a.TMAbort), "TransactionManager.Abort"},
+			{w.Fn("recovery/log_recovery", "LogRecovery", "Undo"), "LogRecovery.Undo"},
+			{w.SSA(a.LMUnlock), "LockManager.Unlock"},
+			{w.Fn("catalog", "Catalog", "insertTable"), "Catalog.insertTable"},
+			{w.Fn("samehada", "", "ReconstructAllIndexData"), "ReconstructAllIndexData"},
+			{w.Fn("samehada", "", "ReconstructNotKeptIndexData"), "ReconstructNotKeptIndexData"},
+			{w.Fn("samehada", "", "reconstructIndexDataOfATbl"), "reconstructIndexDataOfATbl"},
+		}
+		total := 0
+		for _, e := range ents {
+			hs := loopHeaders(e.fn)
+			total += len(hs)
+			bad := 0
+			var pos []string
+			for _, h := range hs {
+				k, where := loopExtraExits(h)
+				bad += k
+				for _, b := range where {
+					pos = append(pos, w.InstrPos(b.Instrs[len(b.Instrs)-1]))
+				}
+			}
+			r.Check(bad == 0 && len(hs) > 0, e.name+":loops-run-to-completion", "every loop of "+e.name+" ends through its own condition only", fmt.Sprintf("%d loops, %d early exits (at %s)", len(hs), bad, strings.Join(pos, ", ")))
+		}
+		r.Floor("loops examined", total, 10)
+	})
+}
